@@ -5,6 +5,7 @@
    logical equality of their contents (trie_equivb) — no SHA3 in Coq.
    A case carries its account-id table and key table; operations refer to them by index. *)
 From Goloop Require Export lib.Bytes Model_WorldState.
+From GoloopRun Require Export Pack_Bytes.
 Open Scope N_scope.
 
 (* everything the harness reads from one account: balance, IsContract, owner, state flags,
@@ -31,7 +32,73 @@ Inductive cop :=
 | cFromSnap (i : nat)
 | cLoad (i : nat) (cls : N) (o : list (option aobs)).   (* NewWorldSnapshot from the hash of snapshot i *)
 
-Inductive case := CHist (accts keys : list bytes) (h1 h2 : list cop).
+(* a case is written by the harness either as a term (CHist; the canaries) or, because a
+   large term is slow to read, as one packed byte string (CPacked (pw ..)) in the format
+   parsed by p_case below *)
+Inductive case :=
+| CHist (accts keys : list bytes) (h1 h2 : list cop)
+| CPacked (b : bytes).
+
+(* ---------- the packed format ---------- *)
+Definition parser (A : Type) := bytes -> option (A * bytes).
+Definition pret {A} (x : A) : parser A := fun s => Some (x, s).
+Definition pbind {A B} (p : parser A) (f : A -> parser B) : parser B :=
+  fun s => match p s with Some (x, r) => f x r | None => None end.
+Notation "x <- p ;; q" := (pbind p (fun x => q)) (at level 61, p at next level, right associativity).
+
+Definition p_byte : parser N := fun s => match s with b :: r => Some (b, r) | [] => None end.
+Fixpoint p_take (n : nat) : parser bytes :=
+  match n with O => pret [] | S k => b <- p_byte ;; r <- p_take k ;; pret (b :: r) end.
+Definition p_bytes : parser bytes := n <- p_byte ;; p_take (N.to_nat n).          (* length byte, data *)
+Definition p_bool : parser bool := b <- p_byte ;; pret (negb (b =? 0)).
+Definition p_opt {A} (p : parser A) : parser (option A) :=
+  t <- p_byte ;; if t =? 0 then pret None else (x <- p ;; pret (Some x)).
+Fixpoint p_rep {A} (n : nat) (p : parser A) : parser (list A) :=
+  match n with O => pret [] | S k => x <- p ;; r <- p_rep k p ;; pret (x :: r) end.
+Definition p_Z : parser Z :=                                                      (* sign byte, length byte, big-endian magnitude *)
+  sg <- p_byte ;; bs <- p_bytes ;;
+  let v := Z.of_N (be_val bs) in pret (if sg =? 0 then v else (- v)%Z).
+Definition p_nat : parser nat := b <- p_byte ;; pret (N.to_nat b).
+Definition p_n2 : parser nat := a <- p_byte ;; b <- p_byte ;; pret (N.to_nat (a * 256 + b)).
+
+Definition p_aobs (nk : nat) : parser aobs :=
+  bal <- p_Z ;; isc <- p_bool ;; own <- p_opt p_bytes ;; flg <- p_byte ;; vals <- p_rep nk (p_opt p_bytes) ;;
+  pret (AO bal isc own flg vals).
+
+Definition p_cop (na nk : nat) : parser cop :=
+  tag <- p_byte ;;
+  match tag with
+  | 0 => a <- p_byte ;; pret (cTouch a)
+  | 1 => a <- p_byte ;; v <- p_Z ;; pret (cBal a v)
+  | 2 => a <- p_byte ;; k <- p_byte ;; v <- p_bytes ;; old <- p_opt p_bytes ;; pret (cSet a k v old)
+  | 3 => a <- p_byte ;; k <- p_byte ;; old <- p_opt p_bytes ;; pret (cDel a k old)
+  | 4 => a <- p_byte ;; ow <- p_bytes ;; r <- p_bool ;; pret (cInit a ow r)
+  | 5 => a <- p_byte ;; b <- p_bool ;; pret (cBlock a b)
+  | 6 => a <- p_byte ;; b <- p_bool ;; pret (cDisable a b)
+  | 7 => a <- p_byte ;; o <- p_aobs nk ;; pret (cLive a o)
+  | 8 => a <- p_byte ;; o <- p_aobs nk ;; pret (cPeek a o)
+  | 9 => i <- p_nat ;; o <- p_rep na (p_opt (p_aobs nk)) ;; pret (cObs i o)
+  | 10 => i <- p_nat ;; o <- p_rep na (p_aobs nk) ;; pret (cRO i o)
+  | 11 => c <- p_byte ;; o <- p_rep na (p_opt (p_aobs nk)) ;; pret (cSnap c o)
+  | 12 => i <- p_nat ;; pret (cReset i)
+  | 13 => pret cClear
+  | 14 => i <- p_nat ;; pret (cFlush i)
+  | 15 => i <- p_nat ;; pret (cReload i)
+  | 16 => i <- p_nat ;; pret (cFromSnap i)
+  | 17 => i <- p_nat ;; c <- p_byte ;; o <- p_rep na (p_opt (p_aobs nk)) ;; pret (cLoad i c o)
+  | _ => fun _ => None
+  end.
+
+Definition p_case : parser case :=
+  na <- p_nat ;; accts <- p_rep na p_bytes ;;
+  nk <- p_nat ;; keys <- p_rep nk p_bytes ;;
+  n1 <- p_n2 ;; h1 <- p_rep n1 (p_cop na nk) ;;
+  n2 <- p_n2 ;; h2 <- p_rep n2 (p_cop na nk) ;;
+  pret (CHist accts keys h1 h2).
+
+(* the whole string must be consumed *)
+Definition unpack (b : bytes) : option case :=
+  match p_case b with Some (c, []) => Some c | _ => None end.
 
 Definition out_eqb (a b : out) : bool :=
   match a, b with
@@ -122,12 +189,19 @@ Fixpoint part_ok (l : list (N * trie)) : bool :=
       forallb (fun ct => Bool.eqb (c =? fst ct) (trie_equivb t (snd ct))) r && part_ok r
   end.
 
+Definition check_hist (accts keys : list bytes) (h1 h2 : list cop) : bool :=
+  let '(ok1, p1) := run_hist accts keys h1 in
+  let '(ok2, p2) := run_hist accts keys h2 in
+  ok1 && ok2 && part_ok (p1 ++ p2).
+
 Definition check (c : case) : bool :=
   match c with
-  | CHist accts keys h1 h2 =>
-      let '(ok1, p1) := run_hist accts keys h1 in
-      let '(ok2, p2) := run_hist accts keys h2 in
-      ok1 && ok2 && part_ok (p1 ++ p2)
+  | CHist accts keys h1 h2 => check_hist accts keys h1 h2
+  | CPacked b =>
+      match unpack b with
+      | Some (CHist accts keys h1 h2) => check_hist accts keys h1 h2
+      | _ => false
+      end
   end.
 
 Definition mismatches (l : list case) : list nat := failing check l.
